@@ -320,13 +320,13 @@ Qed.
 
 Lemma remove_block_fields l p b :
   txs (remove_block_transactions l p b)
-    = filter (fun t => valid_against l t && negb (in_block t b)) (txs p) /\
+    = filter (fun t => still_valid l t && negb (in_block t b)) (txs p) /\
   umap (remove_block_transactions l p b)
     = fold_right sadd [] (block_keys (txs (remove_block_transactions l p b))) /\
   work (remove_block_transactions l p b) = sum_work (txs (remove_block_transactions l p b)).
 Proof.
   unfold remove_block_transactions, delete_transactions, rebuild_utxo_map.
-  destruct (delete_fold_fields b (set_txs p (filter (valid_against l) (txs p)))) as [H1 _].
+  destruct (delete_fold_fields b (set_txs p (filter (still_valid l) (txs p)))) as [H1 _].
   cbn [txs umap work set_work]. rewrite H1. cbn [txs set_txs]. rewrite filter_filter. auto.
 Qed.
 
@@ -455,14 +455,14 @@ Qed.
 
 Lemma remove_block_shape l p b :
   remove_block_transactions l p b =
-  rebuild_utxo_map (mkP (filter (fun t => valid_against l t && negb (in_block t b)) (txs p))
+  rebuild_utxo_map (mkP (filter (fun t => still_valid l t && negb (in_block t b)) (txs p))
                         (umap p)
-                        (sum_work (filter (fun t => valid_against l t && negb (in_block t b)) (txs p)))
+                        (sum_work (filter (fun t => still_valid l t && negb (in_block t b)) (txs p)))
                         (Mempool.fresh p)
-                        (gts (fold_left delete_one b (set_txs p (filter (valid_against l) (txs p)))))).
+                        (gts (fold_left delete_one b (set_txs p (filter (still_valid l) (txs p)))))).
 Proof.
   unfold remove_block_transactions, delete_transactions.
-  destruct (delete_fold_fields b (set_txs p (filter (valid_against l) (txs p)))) as [H1 [H2 [_ H4]]].
+  destruct (delete_fold_fields b (set_txs p (filter (still_valid l) (txs p)))) as [H1 [H2 [_ H4]]].
   unfold rebuild_utxo_map, set_work. cbn [txs umap work Mempool.fresh gts].
   rewrite H1, H4. cbn [txs set_txs Mempool.fresh]. rewrite filter_filter. reflexivity.
 Qed.
@@ -595,7 +595,23 @@ Proof.
   intros s l n b x H. simpl in H. inversion H. subst. simpl. split; [reflexivity|].
   intros t Ht. destruct (remove_block_fields (mkC l n (c_gp (ledger s))) (pl s) b) as [E _].
   rewrite E in Ht.
-  apply filter_In in Ht. destruct Ht as [_ Ht]. apply andb_true_iff in Ht. tauto.
+  apply filter_In in Ht. destruct Ht as [_ Ht]. apply andb_true_iff in Ht. destruct Ht as [Ht _].
+  unfold still_valid in Ht. apply andb_true_iff in Ht. tauto.
+Qed.
+
+(* ... and satisfies the age rule (rebroadcast and issuance transactions are exempt, as in
+   validate()) *)
+Theorem pooled_young_after_block : forall s l n b x,
+  step s (OBlockAdded l n b) = Ok x ->
+  forall t, In t (txs (pl (fst x))) -> t_type t <> TATR -> t_type t <> TIssuance ->
+  age_ok (ledger (fst x)) t = true.
+Proof.
+  intros s l n b x H t Ht T1 T2. simpl in H. inversion H. subst. cbn [fst pl ledger] in *.
+  destruct (remove_block_fields (mkC l n (c_gp (ledger s))) (pl s) b) as [E _].
+  rewrite E in Ht.
+  apply filter_In in Ht. destruct Ht as [_ Ht]. apply andb_true_iff in Ht. destruct Ht as [Ht _].
+  unfold still_valid in Ht. apply andb_true_iff in Ht. destruct Ht as [_ Ht].
+  destruct (t_type t); try congruence; exact Ht.
 Qed.
 
 (* ... and stays valid until the ledger changes again, as long as what arrives is of a
@@ -993,16 +1009,6 @@ Proof.
   simpl in Hu. destruct Hu as [<-|Hu]; auto.
 Qed.
 
-(* a block addition after which a pooled transaction that stays pooled is older than the
-   rule allows: the retain of remove_block_transactions looks at the utxoset only *)
-Definition ev_aged (s : state) (o : op) : bool :=
-  match o with
-  | OBlockAdded k n b =>
-      let c := mkC k n (c_gp (ledger s)) in
-      existsb (fun t => age_ruled t && negb (age_ok c t)) (txs (remove_block_transactions c (pl s) b))
-  | _ => false
-  end.
-
 Lemma AgeInv_core c p env wn st ex p' r :
   bundle_core c p env wn st ex = Ok (p', r) ->
   (forall t, In t (txs p) -> age_ruled t = true -> age_ok c t = true) ->
@@ -1016,10 +1022,9 @@ Proof.
   - intros t Ht. simpl in Ht. contradiction.
 Qed.
 
-Lemma AgeInv_step s o x :
-  AgeInv s -> ev_aged s o = false -> step s o = Ok x -> AgeInv (fst x).
+Lemma AgeInv_step s o x : AgeInv s -> step s o = Ok x -> AgeInv (fst x).
 Proof.
-  unfold AgeInv. intros HI HK HS. destruct o as [t|a b|ts bg env wn st ex|l n b|h mine b]; simpl in HS.
+  unfold AgeInv. intros HI HS. destruct o as [t|a b|ts bg env wn st ex|l n b|h mine b]; simpl in HS.
   - destruct (add_transaction_if_validates (ledger s) (pl s) t) eqn:A; simpl in HS; try discriminate.
     inversion HS. subst. simpl. intros u Hu R.
     destruct (add_if_valid_In _ _ _ _ _ A Hu) as [H|[-> V]]; [auto | apply tx_validate_age; auto].
@@ -1028,8 +1033,8 @@ Proof.
     inversion HS. subst. simpl. unfold bundle_block in B.
     destruct ts; simpl in B; [|inversion B; subst; exact HI].
     eapply AgeInv_core; [exact B|]. destruct (drop_bad_gt_fields (pl s) bg) as [E _]. rewrite E. exact HI.
-  - inversion HS. subst. simpl. simpl in HK. rewrite existsb_false in HK.
-    intros t Ht R. specialize (HK t Ht). rewrite R in HK. simpl in HK. apply negb_false_iff in HK. exact HK.
+  - intros t Ht R. eapply pooled_young_after_block; eauto;
+      unfold age_ruled in R; destruct (t_type t); discriminate.
   - destruct (add_block_failure (ledger s) (pl s) h mine b) as [p'| |] eqn:F; simpl in HS; try discriminate.
     inversion HS. subst. simpl. intros t Ht R.
     unfold add_block_failure, add_block_transactions_back in F. destruct mine.
@@ -1041,23 +1046,14 @@ Proof.
     + inversion F. subst. apply HI; assumption.
 Qed.
 
-Lemma run_invariant_K (K : state -> op -> bool) (Inv : state -> Prop) :
-  (forall s o x, Inv s -> K s o = false -> step s o = Ok x -> Inv (fst x)) ->
-  forall ops s s', Inv s -> known_in K s ops = false -> run s ops = Ok s' -> Inv s'.
+(* no pooled transaction (of a type that validate() subjects to the age rule) has an input
+   older than latest + 1 - genesis_period, after every operation sequence *)
+Theorem pool_age_invariant : forall g ops s, run (init g) ops = Ok s -> AgeInv s.
 Proof.
-  intros Hstep. induction ops as [|o r IH]; intros s s' HI HK HR.
-  - simpl in HR. inversion HR. subst. exact HI.
-  - apply run_cons in HR. destruct HR as [x [Hs Hr]].
-    simpl in HK. apply orb_false_iff in HK. destruct HK as [HK1 HK2].
-    rewrite Hs in HK2. eapply IH; [eapply Hstep; eauto | exact HK2 | exact Hr].
-Qed.
-
-Theorem pool_age_invariant : forall g ops s,
-  known_in ev_aged (init g) ops = false -> run (init g) ops = Ok s -> AgeInv s.
-Proof.
-  intros g ops s HK HR.
-  eapply (run_invariant_K ev_aged AgeInv); eauto using AgeInv_step.
-  intros t [].
+  intros g ops s HR.
+  apply (run_invariant AgeInv) with (ops := ops) (s := init g); auto.
+  - intros. eapply AgeInv_step; eauto.
+  - intros t [].
 Qed.
 
 (* at intake the rule is applied *)
@@ -1090,6 +1086,45 @@ Proof.
      specialize (Hrk k Hr); lia).
 Qed.
 
+(* ... hence from the mempool path the leaving-out set of Block::create is empty: on every
+   reachable pool, for the block that follows the tip *)
+Theorem no_leave_out_from_pool : forall (born : N -> N) g ops s ex,
+  run (init g) ops = Ok s ->
+  (forall k, In k (rebroadcast_keys ex) -> born k + c_gp (ledger s) < c_latest (ledger s) + 1) ->
+  (forall t, In t (txs (pl s)) -> t_type t <> TGoldenTicket ->
+     age_ruled t = true /\ forall k, In k (vkeys t) -> exists e, t_oldest t = Some e /\ e <= born k) ->
+  kept ex (txs (pl s)) = txs (pl s).
+Proof.
+  intros born g ops s ex HR Hrk Hwf.
+  apply (no_leave_out_when_young born (ledger s)); auto.
+  - intros t Ht T. apply (Hwf t Ht T).
+  - intros t Ht T. apply (pool_age_invariant g ops s HR t Ht). apply (Hwf t Ht T).
+Qed.
+
+(* ... and I4 without exception: a bundle on a reachable pool whose Block::create does not
+   fail yields a block that contains every pooled transaction *)
+Theorem bundle_atomic_reachable : forall (born : N -> N) g ops s ts bg env wn st ex p' b,
+  run (init g) ops = Ok s ->
+  bundle_block (ledger s) (pl s) ts bg env wn st ex = Ok (p', Some b) ->
+  (forall k, In k (rebroadcast_keys ex) -> born k + c_gp (ledger s) < c_latest (ledger s) + 1) ->
+  (forall t, In t (txs (pl s)) -> t_type t <> TGoldenTicket ->
+     age_ruled t = true /\ forall k, In k (vkeys t) -> exists e, t_oldest t = Some e /\ e <= born k) ->
+  txs p' = [] /\ umap p' = [] /\ work p' = 0 /\ dup_spend b = false /\
+  forall t, In t (txs (pl s)) -> In t b.
+Proof.
+  intros born g ops s ts bg env wn st ex p' b HR B Hrk Hwf.
+  pose proof (no_leave_out_from_pool born g ops s ex HR Hrk Hwf) as HK.
+  unfold bundle_block in B. destruct ts; simpl in B; [|discriminate].
+  apply core_cases in B.
+  destruct B as [[_ [E _]]|[s0 [p1 [_ [_ [A [[_ [_ [_ E]]]|[D [_ [-> E]]]]]]]]]]; try discriminate.
+  inversion E. subst b. simpl. repeat split; auto.
+  intros t Ht. apply in_app_iff. left.
+  assert (In t (kept ex (txs (pl s)))) as Hk by (rewrite HK; exact Ht).
+  unfold kept in *. apply filter_In in Hk. apply filter_In. split; [|tauto].
+  destruct (drop_bad_gt_fields (pl s) bg) as [Et _].
+  apply add_if_valid_cases in A. destruct A as [->|[_ [_ [_ ->]]]]; simpl; rewrite Et; tauto.
+Qed.
+
 (* ------------------------------------------------------------------ *)
 (* witnesses                                                           *)
 
@@ -1106,31 +1141,17 @@ Definition wG  : chain := mkC [1; 2; 3] 1 100.
 (* window of 5 blocks, tip 5: outputs of block 1 can be spent in block 6, not later *)
 Definition wG5 : chain := mkC [1; 2; 3] 5 5.
 
-(* the age rule is applied at intake only.  wA2 (inputs 1 and 2 of block 1) and wE are pooled
-   at tip 5; a peer block makes the tip 6 without touching their inputs: both stay pooled
-   although validate() now refuses them; a new arrival spending output 2 is refused *)
+(* regression (aged-tx-stays-pooled): wA2 (inputs 1 and 2 of block 1) and wE are pooled at
+   tip 5; a peer block makes the tip 6 without touching their inputs: before the age rule was
+   applied to the revalidation both stayed pooled although validate() refused them; now the
+   retain drops them, with their reservations and their routing work *)
 Definition ops_aged : list op := [OAddTx wA2; OAddTx wE; OBlockAdded [1; 2; 3; 9] 6 []].
 
-Lemma pool_age_invariant_refuted :
-  exists g ops s t,
-    run (init g) ops = Ok s /\ known_in ev_aged (init g) ops = true /\
-    In t (txs (pl s)) /\ t_ok t = true /\ valid_against (ledger s) t = true /\
-    tx_validate (ledger s) t = false /\
-    add_transaction_if_validates (ledger s) (set_txs (pl s) []) t = Ok (set_txs (pl s) []).
-Proof.
-  exists wG5, ops_aged. eexists. exists wE.
-  split; [vm_compute; reflexivity|]. split; [vm_compute; reflexivity|].
-  split; [simpl; auto|]. repeat split; vm_compute; reflexivity.
-Qed.
-
-(* ... and Block::create's leaving-out stays reachable from the pool: the next bundle (block 7
-   rebroadcasts the outputs of block 1) drops both transactions and bundles nothing of the pool *)
-Lemma leave_out_still_reachable :
-  exists s p' b, run (init wG5) ops_aged = Ok s /\
-    bundle_block (ledger s) (pl s) true None true 0 (Some wS)
-                 [wR; mkTx 31 [(3, 100)] 0 TATR true 0 (Some 1) true] = Ok (p', Some b) /\
-    map t_id b = [90; 30; 31] /\ txs p' = [] /\ umap p' = [].
-Proof. eexists. eexists. eexists. split; [vm_compute; reflexivity|]. repeat split; vm_compute; reflexivity. Qed.
+Lemma aged_regression_example :
+  exists s, run (init wG5) ops_aged = Ok s /\
+    txs (pl s) = [] /\ umap (pl s) = [] /\ work (pl s) = 0 /\
+    tx_validate (ledger s) wE = false.
+Proof. eexists. split; [vm_compute; reflexivity|]. repeat split; vm_compute; reflexivity. Qed.
 
 (* window edge, both transactions pooled in time: wA2 spends output 1, which the block
    rebroadcasts, and output 2; wE is unrelated.  The block holds wE (and the additions), the
@@ -1206,7 +1227,7 @@ Definition ops_life : list op :=
 
 Lemma life_example :
   exists s, run (init wG) ops_life = Ok s /\
-            known_in (fun s o => ev_failed_create s o || ev_aged s o) (init wG) ops_life = false /\
+            known_in ev_failed_create (init wG) ops_life = false /\
             map t_id (txs (pl s)) = [18; 15] /\ umap (pl s) = [4; 3] /\ work (pl s) = 47 /\
             gts (pl s) = [].
 Proof. eexists. split; [vm_compute; reflexivity|]. repeat split; vm_compute; reflexivity. Qed.
